@@ -469,24 +469,17 @@ def _registry(ctx, repo):
         return False
     rows, okw = [], True
     code = ("attr", X, "code")
+    tables = {n.value.id for n in walk_no_nested(w) if isinstance(n, ast.Return) and isinstance(n.value, ast.Name)}
     for p_ in it.loop_body(lp, {}):
         if p_.term not in ("fall", "continue"):
             okw = False
             rows.append(f"path ends with {p_.term}")
             continue
-        final, clobber = None, False
-        for e in [e for e in p_.effects if e[0] == "setitem"]:
-            base, key, val = e[1], e[2], e[3]
-            fresh = any(c == ("cmp", "In", key, base) and tv is False for c, tv in p_.conds)
-            if isinstance(base, tuple) and base[0] == "sub" and key == code and val == X:
-                final = base[2]
-            elif val == ("dict", ((code, X),)):
-                final = key
-                clobber = clobber or not fresh
-            elif val == ("dict", ()):
-                clobber = clobber or not fresh
-            else:
-                final = ("?", sym.show(key), sym.show(val))
+        entries, nclob = sym.table_writes(p_, lambda t: isinstance(t, tuple) and t[0] == "name" and t[1] in tables)
+        clobber = nclob > 0
+        final = None
+        for k1, k2, v in entries:
+            final = k1 if (k2 == code and v == X) else ("?", sym.show(k2), sym.show(v))
         rows.append((vend_none(p_, X), sym.show(final) if final is not None else None, clobber))
         okw = okw and final is not None and not clobber and key_ok(p_, final, X)
     ctx.decide(okw and bool(rows), "R-TABLE/registry", wq, ldr.where(w), "registry is written as [vendor][code] -> class",
